@@ -14,7 +14,7 @@ BLOB = (400, 2600)
 RULE = ("Hypothesis byte-backed generator: tables of 1-300 commands (weighted 1-12 / 13-40 / 100-300) in 1-4 groups, names over "
         "the full alphabet A-Z a-z 0-9 + # $ @ _ % & built from stems (prefix relations, duplicates, case variants, names with a "
         "character outside the alphabet, a/z/A/Z over-represented), disabled commands and groups, implicit-write commands; "
-        "tables of 255-258 commands sharing one prefix (candidate counter), implicit-write commands with equal non-implicit duplicates in both orders; 4-8 lines per case typed as exact / other case / every proper prefix / +1 char / substitution / random name x "
+        "one case in eight registers one command array through two groups, exactly one of them enabled (resolution is per registration); tables of 255-258 commands sharing one prefix (candidate counter), implicit-write commands with equal non-implicit duplicates in both orders; 4-8 lines per case typed as exact / other case / every proper prefix / +1 char / substitution / random name x "
         "suffix none,?,=args,=? ; an enumerated sweep of all registration orders of every <=4-command table over the +T/+TA/+TB/+TAB family (upper/lower case, first command disabled) x 8 typed names x 4 suffixes; command capacity from exactly ceil(n/4) upward. A case is non-trivial if some line's typed "
         "name is a prefix of >=2 enabled names, or equals one name while being a proper prefix of another, or the target has "
         "index >=4 in a table of >4 commands, or letter case differs between typed and registered name; distinct by case hash.")
